@@ -72,7 +72,7 @@ Proof.
 Qed.
 
 Lemma delivered_one cfg ev :
-  delivered cfg [ev] = if accepts cfg ev then map (fun it => (it, partner ev it)) (e_items ev) else [].
+  delivered cfg [ev] = if sees cfg ev then map (fun it => (it, partner ev it)) (e_items ev) else [].
 Proof. unfold delivered. cbn [flat_map]. apply app_nil_r. Qed.
 
 Lemma delivered_app cfg h1 h2 : delivered cfg (h1 ++ h2) = delivered cfg h1 ++ delivered cfg h2.
@@ -83,11 +83,13 @@ Proof. apply (delivered_app cfg [ev] h). Qed.
 
 (* one event, 'best' tracker: the (re-synchronised) state is folded over the delivered pairs *)
 Lemma handle_best cfg st ev : c_what cfg = Best ->
-  let st' := handle_event cfg st ev in
+  let st' := deliver cfg st ev in
   resync st' = fold_left (upd_best (c_tol cfg)) (delivered cfg [ev]) (resync st) /\
   stored st' = proj (resync st').
 Proof.
-  intros Hw. cbv zeta. rewrite delivered_one. unfold handle_event. rewrite Hw.
+  intros Hw. cbv zeta. rewrite delivered_one. unfold deliver, sees.
+  destruct (reaches cfg ev); cbn [andb fold_left]; [|split; [reflexivity | symmetry; apply proj_resync]].
+  unfold handle_event. rewrite Hw.
   destruct (accepts cfg ev); cbn [fold_left].
   - pose proof (update_optimal_spec (c_tol cfg) (resync st)
                   (map (fun it => (it, partner ev it)) (e_items ev))) as H.
@@ -105,8 +107,8 @@ Lemma track_best cfg h : c_what cfg = Best -> forall st,
 Proof.
   intros Hw. induction h as [|ev h IH]; intros st; cbv zeta.
   - cbn. split; [reflexivity | symmetry; apply proj_resync].
-  - cbn [map]. unfold track. cbn [fold_left step]. fold (track cfg (handle_event cfg st ev) (map Emit h)).
-    destruct (IH (handle_event cfg st ev)) as [IH1 IH2]. cbv zeta in IH1, IH2.
+  - cbn [map]. unfold track. cbn [fold_left step]. fold (track cfg (deliver cfg st ev) (map Emit h)).
+    destruct (IH (deliver cfg st ev)) as [IH1 IH2]. cbv zeta in IH1, IH2.
     destruct (handle_best cfg st ev Hw) as [H1 _]. cbv zeta in H1.
     rewrite IH2, IH1, H1, (delivered_cons cfg ev h), fold_left_app. split; reflexivity.
 Qed.
@@ -253,7 +255,7 @@ Qed.
 
 Theorem best_frame cfg st ev : c_what cfg = Best ->
   (forall p, In p (delivered cfg [ev]) -> candidate (c_tol cfg) p = false) ->
-  stored (handle_event cfg st ev) = stored st /\ resync (handle_event cfg st ev) = resync st.
+  stored (deliver cfg st ev) = stored st /\ resync (deliver cfg st ev) = resync st.
 Proof.
   intros Hw H. destruct (handle_best cfg st ev Hw) as [H1 H2]. cbv zeta in H1, H2.
   rewrite fold_best_frame in H1 by exact H. split; [|exact H1].
@@ -285,13 +287,15 @@ Lemma find_app {A} (f : A -> bool) a b : find f (a ++ b) = match find f a with S
 Proof. induction a as [|x a IH]; cbn; [reflexivity|]. destruct (f x); [reflexivity | exact IH]. Qed.
 
 Lemma handle_last cfg st ev : c_what cfg = Last ->
-  stored (handle_event cfg st ev) =
+  stored (deliver cfg st ev) =
   match find (last_candidate (c_tol cfg)) (rev (delivered cfg [ev])) with
   | Some p => Some (last_entry p)
   | None => stored st
   end.
 Proof.
-  intros Hw. rewrite delivered_one. unfold handle_event. rewrite Hw.
+  intros Hw. rewrite delivered_one. unfold deliver, sees.
+  destruct (reaches cfg ev); cbn [andb]; [|reflexivity].
+  unfold handle_event. rewrite Hw.
   destruct (accepts cfg ev); [|reflexivity].
   unfold get_last, last_candidate, last_entry.
   destruct (find _ (rev (map (fun it => (it, partner ev it)) (e_items ev)))) as [p|]; reflexivity.
@@ -305,7 +309,7 @@ Theorem last_spec cfg h : c_what cfg = Last -> forall st,
   end.
 Proof.
   intros Hw. induction h as [|ev h IH]; intros st; [reflexivity|].
-  cbn [map]. unfold track. cbn [fold_left step]. fold (track cfg (handle_event cfg st ev) (map Emit h)).
+  cbn [map]. unfold track. cbn [fold_left step]. fold (track cfg (deliver cfg st ev) (map Emit h)).
   rewrite IH, (delivered_cons cfg ev h), rev_app_distr, find_app.
   destruct (find (last_candidate (c_tol cfg)) (rev (delivered cfg h))); [reflexivity|].
   apply handle_last, Hw.
@@ -384,22 +388,28 @@ Definition all_pairs (evs : list event) : list (item * facet) :=
                       | None => []
                       end) evs.
 
-Lemma delivered_basic sid tol evs : (forall ev, In ev evs -> e_src ev = sid) ->
+(* the events of a BasicOptimizer run: emitted by the one optimizer step, on the one plan *)
+Definition basic_run (sid : nat) (evs : list event) : Prop :=
+  forall ev, In ev evs -> e_src ev = sid /\ e_path ev = [0%nat].
+
+Lemma delivered_basic sid tol evs : basic_run sid evs ->
   delivered (basic_config sid tol) evs = all_pairs evs.
 Proof.
   intros H. unfold delivered, all_pairs. induction evs as [|ev evs IH]; [reflexivity|].
   cbn [flat_map]. rewrite IH by (intros e He; apply H; right; exact He). f_equal.
-  unfold accepts, basic_config; cbn [c_sources existsb]. rewrite (H ev (or_introl eq_refl)), Nat.eqb_refl.
-  destruct finished_evaluation; [|reflexivity]. cbn [orb]. rewrite andb_true_r. reflexivity.
+  destruct (H ev (or_introl eq_refl)) as [Hs Hp].
+  unfold sees, reaches, accepts, basic_config; cbn [c_sources c_plan existsb]. rewrite Hs, Hp, Nat.eqb_refl.
+  cbn [existsb Nat.eqb orb andb].
+  destruct finished_evaluation; [|reflexivity]. rewrite andb_true_r. reflexivity.
 Qed.
 
-Theorem basic_optimizer_spec sid tol evs : (forall ev, In ev evs -> e_src ev = sid) ->
+Theorem basic_optimizer_spec sid tol evs : basic_run sid evs ->
   match basic_optimizer sid tol evs with
-  | None => forall p, In p (all_pairs evs) -> candidate (Some tol) p = false
+  | None => forall p, In p (all_pairs evs) -> candidate tol p = false
   | Some id => exists d1 p d2, all_pairs evs = d1 ++ p :: d2 /\ id = i_id (fst p) /\
-      candidate (Some tol) p = true /\
-      (forall q, In q d1 -> candidate (Some tol) q = true -> oval (snd p) < oval (snd q)) /\
-      (forall q, In q d2 -> candidate (Some tol) q = true -> oval (snd p) <= oval (snd q))
+      candidate tol p = true /\
+      (forall q, In q d1 -> candidate tol q = true -> oval (snd p) < oval (snd q)) /\
+      (forall q, In q d2 -> candidate tol q = true -> oval (snd p) <= oval (snd q))
   end.
 Proof.
   intros H. unfold basic_optimizer, stored_id.
@@ -452,4 +462,181 @@ Proof.
   destruct (find (last_candidate (c_tol cfg)) (rev (delivered cfg h))) as [p|] eqn:E.
   - left. apply find_rev_last in E as (d1 & d2 & Hd & Hp & Hl). exists d1, p, d2. repeat split; assumption.
   - right. split; [apply find_rev_none; exact E | reflexivity].
+Qed.
+
+(* ---- events that do not reach the handler, or that it does not accept, are the identity ------------- *)
+Lemma deliver_unseen cfg st ev : sees cfg ev = false -> deliver cfg st ev = st.
+Proof.
+  unfold sees, deliver. destruct (reaches cfg ev); cbn [andb]; [|reflexivity].
+  intros H. unfold handle_event. rewrite H. reflexivity.
+Qed.
+
+Theorem track_filter_seen cfg h : forall st,
+  track cfg st (map Emit h) = track cfg st (map Emit (filter (sees cfg) h)).
+Proof.
+  unfold track. induction h as [|ev h IH]; intros st; [reflexivity|].
+  cbn [map filter]. destruct (sees cfg ev) eqn:E.
+  - cbn [map fold_left]. apply IH.
+  - cbn [fold_left step]. rewrite (deliver_unseen _ _ _ E). apply IH.
+Qed.
+
+(* ---- 'best' from an ARBITRARY handler state (after Plan.set replaced the stored result, in the middle
+        of a run, ...): the held pair is kept unless a delivered candidate is strictly better ------------ *)
+Definition Beats (tol : option Q) (o0 : Q) (b0 : nat * facet * facet) (d : list (item * facet))
+                 (s : option (nat * facet * facet)) : Prop :=
+  (s = Some b0 /\ forall q, In q d -> candidate tol q = true -> o0 <= oval (snd q))
+  \/ (exists d1 p d2, d = d1 ++ p :: d2 /\ s = Some (entry p) /\ candidate tol p = true /\ oval (snd p) < o0 /\
+        (forall q, In q d1 -> candidate tol q = true -> oval (snd p) < oval (snd q)) /\
+        (forall q, In q d2 -> candidate tol q = true -> oval (snd p) <= oval (snd q))).
+
+Lemma Beats_keep tol o0 b0 d s p : f_obj (snd b0) = Some o0 -> Beats tol o0 b0 d s ->
+  (candidate tol p = true -> match s with Some b => oval (snd b) <= oval (snd p) | None => False end) ->
+  Beats tol o0 b0 (d ++ [p]) s.
+Proof.
+  intros Hb [[Hs Hall]|(d1 & p1 & d2 & Hd & Hs & Hc & Hlt0 & Hlt & Hle)] Hp.
+  - left. split; [exact Hs|]. intros q Hq Hcq. apply in_app_or in Hq as [Hq|[<-|[]]]; [apply Hall; assumption|].
+    specialize (Hp Hcq). rewrite Hs in Hp. unfold oval at 1 in Hp. rewrite Hb in Hp. exact Hp.
+  - right. exists d1, p1, (d2 ++ [p]). split; [rewrite Hd, <- app_assoc; reflexivity|].
+    split; [exact Hs|]. split; [exact Hc|]. split; [exact Hlt0|]. split; [exact Hlt|].
+    intros q Hq Hcq. apply in_app_or in Hq as [Hq|[<-|[]]]; [apply Hle; assumption|].
+    specialize (Hp Hcq). rewrite Hs in Hp. exact Hp.
+Qed.
+
+Lemma upd_best_beats tol o0 b0 d s p : f_obj (snd b0) = Some o0 ->
+  Beats tol o0 b0 d s -> Beats tol o0 b0 (d ++ [p]) (upd_best tol s p).
+Proof.
+  intros Hb HB. unfold upd_best.
+  destruct (eligible tol (snd p)) eqn:Ee; cbn [andb].
+  2:{ apply Beats_keep; [exact Hb | exact HB|]. intros Hc. apply candidate_split in Hc as [Hc _]. congruence. }
+  unfold new_optimal. destruct (f_obj (snd p)) as [o|] eqn:Eo.
+  2:{ apply Beats_keep; [exact Hb | exact HB|]. intros Hc. apply candidate_split in Hc as [_ [o Ho]]. congruence. }
+  assert (Hcp : candidate tol p = true) by (apply candidate_split; split; [exact Ee | eexists; exact Eo]).
+  destruct HB as [[Hs Hall]|(d1 & p1 & d2 & Hd & Hs & Hc & Hlt0 & Hlt & Hle)]; rewrite Hs; cbn [option_map].
+  - rewrite Hb. destruct (Qltb o o0) eqn:Ec.
+    + apply Qltb_lt in Ec. right. exists d, p, []. split; [reflexivity|]. split; [reflexivity|]. split; [exact Hcp|].
+      unfold oval at 1 2. rewrite Eo. split; [exact Ec|]. split; [|intros q []].
+      intros q Hq Hcq. specialize (Hall q Hq Hcq). lra.
+    + apply Qltb_nlt in Ec. apply Beats_keep; [exact Hb | left; split; [reflexivity | exact Hall] |].
+      intros _. unfold oval. rewrite Hb, Eo. lra.
+  - assert (Hsb : snd (entry p1) = snd p1) by reflexivity. rewrite Hsb.
+    pose proof Hc as Hc'. apply candidate_split in Hc' as [_ [o1 Ho1]]. rewrite Ho1.
+    unfold oval at 1 in Hlt0. rewrite Ho1 in Hlt0.
+    destruct (Qltb o o1) eqn:Ec.
+    + apply Qltb_lt in Ec. right. exists d, p, []. split; [reflexivity|]. split; [reflexivity|]. split; [exact Hcp|].
+      unfold oval at 1 2. rewrite Eo. split; [lra|]. split; [|intros q []].
+      intros q Hq Hcq. subst d. apply in_app_or in Hq as [Hq|[<-|Hq]].
+      * specialize (Hlt q Hq Hcq). unfold oval at 1 in Hlt. rewrite Ho1 in Hlt. lra.
+      * unfold oval. rewrite Ho1. exact Ec.
+      * specialize (Hle q Hq Hcq). unfold oval at 1 in Hle. rewrite Ho1 in Hle. lra.
+    + apply Qltb_nlt in Ec. apply Beats_keep; [exact Hb| |].
+      * right. exists d1, p1, d2. unfold oval at 1. rewrite Ho1. repeat split; assumption.
+      * intros _. rewrite Hsb. unfold oval. rewrite Ho1, Eo. lra.
+Qed.
+
+Lemma fold_beats tol o0 b0 h : f_obj (snd b0) = Some o0 -> forall d s,
+  Beats tol o0 b0 d s -> Beats tol o0 b0 (d ++ h) (fold_left (upd_best tol) h s).
+Proof.
+  intros Hb. induction h as [|p h IH]; intros d s HB; cbn [fold_left].
+  - rewrite app_nil_r. exact HB.
+  - replace (d ++ p :: h) with ((d ++ [p]) ++ h) by (rewrite <- app_assoc; reflexivity).
+    apply IH, upd_best_beats; assumption.
+Qed.
+
+Theorem best_from_state cfg st h b o : c_what cfg = Best -> resync st = Some b -> f_obj (snd b) = Some o ->
+  Beats (c_tol cfg) o b (delivered cfg h) (resync (track cfg st (map Emit h))) /\
+  stored (track cfg st (map Emit h)) = proj (resync (track cfg st (map Emit h))).
+Proof.
+  intros Hw Hr Ho. destruct (track_best cfg h Hw st) as [H1 H2]. cbv zeta in H1, H2. split; [|exact H2].
+  rewrite H1, Hr. apply (fold_beats (c_tol cfg) o b (delivered cfg h) Ho [] (Some b)).
+  left. split; [reflexivity | intros q []].
+Qed.
+
+(* the same on what Plan.get shows *)
+Theorem best_from_state_held cfg st h bid bu bt o : c_what cfg = Best ->
+  resync st = Some (bid, bu, bt) -> f_obj bt = Some o ->
+  (stored (track cfg st (map Emit h)) = Some (bid, bu) /\
+     forall q, In q (delivered cfg h) -> candidate (c_tol cfg) q = true -> o <= oval (snd q))
+  \/ (exists d1 p d2, delivered cfg h = d1 ++ p :: d2 /\
+        stored (track cfg st (map Emit h)) = Some (i_id (fst p), i_u (fst p)) /\
+        candidate (c_tol cfg) p = true /\ oval (snd p) < o /\
+        (forall q, In q d1 -> candidate (c_tol cfg) q = true -> oval (snd p) < oval (snd q)) /\
+        (forall q, In q d2 -> candidate (c_tol cfg) q = true -> oval (snd p) <= oval (snd q))).
+Proof.
+  intros Hw Hr Ho. destruct (best_from_state cfg st h (bid, bu, bt) o Hw Hr Ho) as [HB HS]. rewrite HS.
+  destruct HB as [[Hs Hall]|(d1 & p & d2 & Hd & Hs & Hc & Hlt0 & Hlt & Hle)]; rewrite Hs.
+  - left. split; [reflexivity | exact Hall].
+  - right. exists d1, p, d2. repeat split; assumption.
+Qed.
+
+(* Plan.set with a new object: compared through the only facet the handler can see of it;
+   Plan.set with the object already held: nothing changes at all *)
+Lemma resync_put_new cfg st id u : (forall oid ou ot, optimal st = Some (oid, ou, ot) -> oid <> id) ->
+  resync (step cfg st (Put (Some (id, u)))) = Some (id, u, u).
+Proof.
+  intros H. unfold step, resync; cbn [stored optimal].
+  destruct (optimal st) as [[[oid ou] ot]|] eqn:E; [|reflexivity].
+  destruct (Nat.eqb oid id) eqn:En; [|reflexivity]. apply Nat.eqb_eq in En. destruct (H oid ou ot eq_refl En).
+Qed.
+
+Lemma reput_noop cfg st v : stored st = Some v -> step cfg st (Put (Some v)) = st.
+Proof. intros H. destruct st as [s o]. cbn in *. rewrite H. reflexivity. Qed.
+
+(* ---- monotone: once something is held, something is held ever after and its objective never rises --- *)
+Theorem best_monotone cfg h1 h2 id1 u1 : c_what cfg = Best ->
+  stored (track cfg init (map Emit h1)) = Some (id1, u1) ->
+  exists p1 p2, In p1 (delivered cfg h1) /\ In p2 (delivered cfg (h1 ++ h2)) /\
+    id1 = i_id (fst p1) /\ u1 = i_u (fst p1) /\
+    stored (track cfg init (map Emit (h1 ++ h2))) = Some (i_id (fst p2), i_u (fst p2)) /\
+    oval (snd p2) <= oval (snd p1).
+Proof.
+  intros Hw Hs. destruct (best_argmin cfg h1 Hw) as [HA HS]. rewrite Hs in HS.
+  destruct (resync (track cfg init (map Emit h1))) as [b|] eqn:Er; [|discriminate].
+  cbn [Argmin] in HA. destruct HA as (d1 & p1 & d2 & Hd & Hb & Hc & _ & _).
+  pose proof Hc as Hc'. apply candidate_split in Hc' as [_ [o1 Ho1]].
+  assert (Hob : f_obj (snd b) = Some o1) by (rewrite Hb; exact Ho1).
+  rewrite map_app, track_app.
+  destruct (best_from_state cfg _ h2 b o1 Hw Er Hob) as [HB HS2]. rewrite HS2.
+  assert (Hin1 : In p1 (delivered cfg h1)) by (rewrite Hd; apply in_elt).
+  rewrite Hb in HS. unfold entry in HS. cbn [proj] in HS. injection HS as -> ->.
+  destruct HB as [[Hs2 _]|(e1 & p2 & e2 & Hd2 & Hs2 & Hc2 & Hlt0 & _ & _)]; rewrite Hs2.
+  - exists p1, p1. split; [exact Hin1|]. split; [rewrite delivered_app; apply in_or_app; left; exact Hin1|].
+    split; [reflexivity|]. split; [reflexivity|]. rewrite Hb. split; [reflexivity|]. lra.
+  - exists p1, p2. split; [exact Hin1|]. split; [rewrite delivered_app, Hd2; apply in_or_app; right; apply in_elt|].
+    split; [reflexivity|]. split; [reflexivity|]. split; [reflexivity|].
+    unfold oval at 2. rewrite Ho1. lra.
+Qed.
+
+(* ---- a batch is the same as delivering its results one event at a time ------------------------------- *)
+Definition with_items (ev : event) (l : list item) : event :=
+  {| e_type := e_type ev; e_src := e_src ev; e_path := e_path ev; e_has_results := e_has_results ev;
+     e_has_transformed := e_has_transformed ev; e_items := l |}.
+
+Lemma delivered_split cfg ev l1 l2 : e_items ev = l1 ++ l2 ->
+  delivered cfg [ev] = delivered cfg [with_items ev l1] ++ delivered cfg [with_items ev l2].
+Proof.
+  intros H. rewrite !delivered_one.
+  change (sees cfg (with_items ev l1)) with (sees cfg ev). change (sees cfg (with_items ev l2)) with (sees cfg ev).
+  destruct (sees cfg ev); [|reflexivity]. rewrite H, map_app. reflexivity.
+Qed.
+
+Theorem batch_split cfg st ev l1 l2 : e_items ev = l1 ++ l2 ->
+  stored (deliver cfg st ev) = stored (deliver cfg (deliver cfg st (with_items ev l1)) (with_items ev l2)).
+Proof.
+  intros H. destruct (c_what cfg) eqn:Hw.
+  - destruct (handle_best cfg st ev Hw) as [A1 A2]. cbv zeta in A1, A2.
+    destruct (handle_best cfg st (with_items ev l1) Hw) as [B1 _]. cbv zeta in B1.
+    destruct (handle_best cfg (deliver cfg st (with_items ev l1)) (with_items ev l2) Hw) as [C1 C2]. cbv zeta in C1, C2.
+    rewrite A2, C2, A1, C1, B1, (delivered_split cfg ev l1 l2 H), fold_left_app. reflexivity.
+  - rewrite !(handle_last _ _ _ Hw), (delivered_split cfg ev l1 l2 H), rev_app_distr, find_app.
+    destruct (find (last_candidate (c_tol cfg)) (rev (delivered cfg [with_items ev l2]))); reflexivity.
+Qed.
+
+(* ---- what is observed after every operation is the state the theorems speak about --------------------- *)
+Lemma trace_nth cfg h : forall st k, (k < length h)%nat ->
+  nth k (trace cfg st h) None = stored_id (track cfg st (firstn (S k) h)).
+Proof.
+  induction h as [|a h IH]; intros st k Hk; [cbn in Hk; lia|].
+  destruct k as [|k].
+  - reflexivity.
+  - cbn [trace nth]. rewrite IH by (cbn in Hk; lia). reflexivity.
 Qed.
